@@ -189,12 +189,17 @@ class Execution:
         if _active is not None:
             raise loader.HarnessError("nested thread explorations")
         _active = self
-        # threads are created and started (they wait for the baton) BEFORE the lock factories are replaced: threading's
-        # own machinery must keep real locks
-        threads = [threading.Thread(target=self._run, args=(t,), daemon=True) for t in range(self.n)]
-        for t in threads:
-            t.start()
-        threading.Lock, threading.RLock = CoopLock, CoopRLock
+        # threads are created and started (they wait for the baton) with the REAL lock factories in place: threading's own
+        # machinery must keep real locks.  Everything else - the reload of the modules under test in setup() included -
+        # happens with the cooperative factories (see coop_locks()).
+        was = threading.Lock, threading.RLock
+        threading.Lock, threading.RLock = _RealLock, _RealRLock
+        try:
+            threads = [threading.Thread(target=self._run, args=(t,), daemon=True) for t in range(self.n)]
+            for t in threads:
+                t.start()
+        finally:
+            threading.Lock, threading.RLock = was
         try:
             try:
                 first = self._choose(None, False)
@@ -203,16 +208,17 @@ class Execution:
                 first = None
             if first is not None:
                 self.sems[first].release()
-            if not self.finished.acquire(timeout=60):
-                self.error = self.error or loader.HarnessError("thread exploration: an execution did not finish within 60 s (a real lock or blocking call inside the code under test?)")
+            if not self.finished.acquire(timeout=600):
+                self.error = self.error or loader.HarnessError("thread exploration: an execution did not finish within 600 s (a real lock or blocking call inside the code under test?)")
         finally:
-            threading.Lock, threading.RLock = _RealLock, _RealRLock
             if self.error is not None:
                 # wake every thread so that it can leave (each sees self.error and exits)
                 for s in self.sems:
                     s.release()
             for t in threads:
-                t.join(timeout=5)
+                # without an error every thread has passed its last scheduling decision and is about to return: wait for it
+                # however loaded the machine is (a thread that outlives the execution would run unscheduled)
+                t.join(timeout=5 if self.error is not None else None)
             _active = None
         if isinstance(self.error, Deadlock):
             return
@@ -220,7 +226,23 @@ class Execution:
             raise self.error
 
 
+class coop_locks:
+    """While active, `threading.Lock()` / `threading.RLock()` create cooperative locks: a lock the code under test makes at
+    import time (the modules are reloaded inside this window) or later blocks in the scheduler, not in the kernel."""
+
+    def __enter__(self):
+        threading.Lock, threading.RLock = CoopLock, CoopRLock
+
+    def __exit__(self, *a):
+        threading.Lock, threading.RLock = _RealLock, _RealRLock
+
+
 def explore(setup, bound=2, max_executions=50_000):
+    with coop_locks():
+        return _explore(setup, bound, max_executions)
+
+
+def _explore(setup, bound, max_executions):
     """setup() -> (bodies, judge): fresh state, thread bodies, judge(results, deadlock) -> description or None.
     -> dict(executions, max_points, violation=(schedule, description) or None, complete)"""
     roots = (loader.REPO,)
@@ -249,6 +271,11 @@ def explore(setup, bound=2, max_executions=50_000):
 
 
 def replay_schedule(setup, schedule):
+    with coop_locks():
+        return _replay_schedule(setup, schedule)
+
+
+def _replay_schedule(setup, schedule):
     bodies, judge = setup()
     ex = Execution(bodies, schedule, (loader.REPO,))
     ex.run()
